@@ -40,7 +40,8 @@ Usable(e) == /\ (e.sameref => Len(e.details) >= 2)
 
 MCInit == /\ opening \in {DZero, D(100000, 2), D(-5000, 2)}
           /\ order \in {"old_to_new", "new_to_old"}
-          /\ \E n \in 1..MaxEntries : entries \in {es \in [1..n -> {e \in Entries : Usable(e)}] : \A k \in 1..n : es[k].vday >= (IF k = 1 THEN 2 ELSE es[k - 1].vday)}
+          \* (statements of three entries: one opening balance, to keep the thorough tier within minutes)
+          /\ \E n \in 1..MaxEntries : (n >= 3 => opening = D(100000, 2)) /\ entries \in {es \in [1..n -> {e \in Entries : Usable(e)}] : \A k \in 1..n : es[k].vday >= (IF k = 1 THEN 2 ELSE es[k - 1].vday)}
 MCNext == UNCHANGED <<opening, entries, order>>
 MCSpec == MCInit /\ [][MCNext]_<<opening, entries, order>>
 
